@@ -46,6 +46,38 @@ def lines_of(b, enc='utf-8'):
     return t
 
 
+def file_output_edge_cases(ctx):
+    """the same list goes to a file as to standard output - also when the list is empty and when the number of words is a round
+    number of an output buffer (4096, 8192) or just next to it"""
+    rng = ctx.rng
+    viol, runs = [], 0
+    cases = []
+    empty = prince_spec(rng, ngram=2)
+    empty['prince'] = []
+    cases.append(('empty-prince-grammar', empty, [None]))
+    big = {'terminals': {'D5': [['%05d' % k, repr(0.5 / 5000)] for k in range(5000)] + [['%05d' % k, repr(0.5 / 4000)] for k in range(5000, 9000)]},
+           'grammar': [['D5', '1.0']], 'prince': [['D5', '1.0']], 'omen_prob': [], 'mode': 'float', 'encoding': 'utf-8'}
+    big['terminals']['D5'].sort(key=lambda it: -float(it[1]))
+    cases.append(('buffer-sized', big, [4096, 4095, 4097] if ctx.quick else [4096, 4095, 4097, 8192, 8191, 1, None]))
+    for tag, spec, sizes in cases:
+        name = 'pr_' + tag.replace('-', '_')
+        common.install_ruleset(spec, name)
+        for n in sizes:
+            args = ['-r', name] + (['-s', str(n)] if n else [])
+            out, err, rc = common.run_cli('prince_ling.py', args, stdin='devnull')
+            ofile = os.path.join(common.scratch_dir('prout'), f"edge_{tag}_{n}.txt")
+            if os.path.exists(ofile):
+                os.remove(ofile)
+            out2, err2, rc2 = common.run_cli('prince_ling.py', args + ['-o', ofile], stdin='devnull')
+            runs += 2
+            data = open(ofile, 'rb').read() if os.path.exists(ofile) else None
+            if data != out or out2 != b'' or (n and out.count(b'\n') != min(n, 9000)):
+                viol.append({'property': 'C17', 'kind': 'file-differs-from-stdout', 'case': tag, 'size': n, 'stdout_lines': out.count(b'\n'),
+                             'file_bytes': None if data is None else len(data), 'stdout_bytes': len(out),
+                             'witness': {'edge_case': tag, 'size': n}})
+    return viol, runs
+
+
 def run(ctx):
     rng = ctx.rng
     viol, samples = [], []
@@ -147,6 +179,10 @@ def run(ctx):
                                  'size': n, 'lines': len(got_n), 'total': total, 'witness': {'spec': spec, 'all_lower': lower, 'size': n}})
             if len(samples) < 3 and tie:
                 samples.append({'prince': spec['prince'], 'all_lower': lower, 'total': total, 'sizes': sizes, 'head': words[:5]})
+    v_edge, r_edge = file_output_edge_cases(ctx)
+    viol += v_edge
+    runs += r_edge
+    dist['file_edge_runs'] = r_edge
     disagreements = []
     if ctx.driver_ok:
         out = common.run_driver(ops)
@@ -168,6 +204,8 @@ def run(ctx):
 
 
 def replay(ctx, payload):
+    if 'edge_case' in (payload.get('violation', {}).get('witness') or {}):
+        return file_output_edge_cases(ctx)[0]
     w = payload.get('violation', {}).get('witness') or {}
     if not w:
         return []
